@@ -95,6 +95,7 @@ func TestProp(t *testing.T) {
 	}
 	if env.Replay == "" {
 		rep.Floor("forwarded_authenticated", 300)
+		rep.Floor("upgrade_requests_forwarded", 100)
 		rep.Floor("forwarded_after_due_validate", 50)
 		rep.Floor("forwarded_after_due_refresh", 50)
 		rep.Floor("authenticated_via_favicon_handler", 50)
@@ -245,6 +246,18 @@ func runCase(rep *vh.Report, env vh.Env, stacks []*stackKind, i int) {
 			rq.Headers = append(rq.Headers, [2]string{n, ""}, [2]string{strings.ToLower(n), val})
 		}
 	}
+	// protocol-upgrade requests (websockets) travel a special path through the reverse proxy: the same
+	// guarantees hold for what the upstream receives (seeded change C03g short-cut that path)
+	upgrade := r.Intn(8) == 0
+	if upgrade {
+		conn = "Upgrade"
+		if r.Intn(3) == 0 {
+			conn = "keep-alive, Upgrade"
+		}
+		rq.Headers = append(rq.Headers, [2]string{"Upgrade", []string{"websocket", "WebSocket", "h2c"}[r.Intn(3)]},
+			[2]string{"Sec-WebSocket-Version", "13"}, [2]string{"Sec-WebSocket-Key", "dGhlIHNhbXBsZSBub25jZQ=="})
+		rep.Count("upgrade_requests_sent", 1)
+	}
 	if conn != "" {
 		rq.Headers = append(rq.Headers, [2]string{"Connection", conn})
 	}
@@ -318,7 +331,10 @@ func runCase(rep *vh.Report, env vh.Env, stacks []*stackKind, i int) {
 	}
 	sort.Strings(ls)
 	connClass := "none"
-	if conn != "" {
+	if upgrade {
+		connClass = "upgrade"
+		rep.Count("upgrade_requests_forwarded", 1)
+	} else if conn != "" {
 		connClass = "benign"
 		if strings.Contains(strings.ToLower(conn), "x-forwarded") || strings.Contains(strings.ToLower(conn), "cookie") {
 			connClass = "names-protected-header"
